@@ -154,6 +154,7 @@ type c20run struct {
 
 // call executes one call of the code under test; only "returned" and "returned an error" are allowed.
 func (r *c20run) call(entry, input string, f func() error) {
+	core.Progress()
 	fmt.Fprintf(os.Stderr, "VERIF-INPUT %s %s: %s\n", r.family, entry, input)
 	type outcome struct {
 		err   error
@@ -819,6 +820,7 @@ func (c *c20) RunCase(w *core.Worker, idx int, seed uint64, res *core.CaseResult
 			desc := strings.Join(d, " ; ")
 			note(desc)
 			fmt.Fprintf(os.Stderr, "VERIF-INPUT %s notification: %s\n", family, desc)
+			core.Progress()
 			su := &target.SyncUpdate{Update: nf}
 			switch rng.Intn(12) {
 			case 0:
@@ -906,6 +908,7 @@ func (c *c20) RunCase(w *core.Worker, idx int, seed uint64, res *core.CaseResult
 			gn, desc := c20GNMINotification(rng)
 			note(desc)
 			fmt.Fprintf(os.Stderr, "VERIF-INPUT %s notification: %s\n", family, desc)
+			core.Progress()
 			gdev.Push(gn)
 			res.Count("calls", 1)
 			res.Count("calls:"+family, 1)
